@@ -34,10 +34,9 @@ def rule_ids_under(pol):
 
 
 def judge(chk, c, i, m, facts):
-    for k, d in enumerate(i["decisions"]):
+    for tag, d in enggen.warm_decisions(i):
         if isinstance(d, list) or not isinstance(facts, list) or (facts and facts[0] == "Ood"):
             continue
-        tag = " [cache hit]" if k else ""
         rid = d["rule_id"]
         if rid is not None and not (rid == "" and "policies" not in c["policy"]):
             cands = [f for f in facts if f[0] == rid and f[2] == "applies"]
@@ -84,11 +83,12 @@ def judge(chk, c, i, m, facts):
 
 def check_cases(chk, cases, replay=False):
     impls = enggen.run_impl(cases)
-    failing = [dict(c, sinks_fail=True) for c in cases]
+    # raising sinks: both, only the metrics sink, only the log sink (the healthy one must still get its record)
+    failing = [dict(c, sinks_fail=("both", "metrics", "log")[k % 3], warm=False) for k, c in enumerate(cases)]
     impls_fail = enggen.run_impl(failing)
     models = enggen.run_model(cases, impls, "engine.eval")
     facts = enggen.run_model(cases, impls, "engine.facts")
-    for c, i, ifail, m, f in zip(cases, impls, impls_fail, models, facts):
+    for c, cf, i, ifail, m, f in zip(cases, failing, impls, impls_fail, models, facts):
         chk.count("fam:" + c.get("fam", "?"))
         d0 = i["decisions"][0]
         nontriv = isinstance(d0, dict) and d0["rule_id"] is not None
@@ -103,16 +103,30 @@ def check_cases(chk, cases, replay=False):
                            theorems=["c11_rule_id_truthful"])
             continue
         if ifail["decisions"] != i["decisions"]:
-            chk.violation("a raising log/metrics sink changed the decision (c11_sinks_inert)", c,
+            chk.violation("a raising log/metrics sink changed the decision (c11_sinks_inert)", cf,
                           impl={"with_failing_sinks": ifail["decisions"], "normal": i["decisions"]})
+            continue
+        nf = len(ifail["decisions"])
+        incs_f = [x for x in ifail["incs"] if x[0] == "rbacx_decisions_total"]
+        # every sink is called exactly once per evaluation whether or not it (or the other one) raises
+        if len(ifail["payloads"]) != nf or len(incs_f) != nf:
+            chk.violation("with a raising %s sink not exactly one audit record and one decision metric were emitted per "
+                          "evaluation" % cf["sinks_fail"], cf,
+                          impl={"payloads": len(ifail["payloads"]), "incs": len(incs_f), "evaluations": nf})
+            continue
+        badp = [(d, p) for d, p in zip(ifail["decisions"], ifail["payloads"]) if isinstance(d, dict) and
+                (p.get("decision"), p.get("allowed"), p.get("rule_id"), p.get("reason")) != (d["effect"], d["allowed"], d["rule_id"], d["reason"])]
+        if badp:
+            chk.violation("with a raising %s sink the audit record disagrees with the returned decision" % cf["sinks_fail"], cf,
+                          impl={"decision": badp[0][0], "payload": badp[0][1]})
             continue
         if not judge(chk, c, i, m, f):
             continue
-        for k, d in enumerate(i["decisions"]):
+        for tag, d in enggen.warm_decisions(i):
             dm = m if isinstance(m, dict) else ["Raise"]
             dd = d if isinstance(d, dict) else ["Raise"]
             if dd != dm:
-                chk.corr_break("Decision differs from the model Engine.guard_eval%s" % (" on a cache hit" if k else ""),
+                chk.corr_break("Decision differs from the model Engine.guard_eval%s" % tag,
                                c, impl=d, model=m, theorems=["c11_rule_id_truthful", "c11_no_rule"])
                 break
 
